@@ -175,6 +175,17 @@ class Mon:
                 self.expect("other-service-positive", {"mismatch"}, q, foreign, req, form)
                 self.expect("other-service-undecodable", {"mismatch"}, q, foreign[:1], req, form)
             self.expect("unknown-service-positive", {"mismatch"}, q, bytes([0xFA, 1, 2, 3]), req, form)
+            # frames that are no reply of this service at all: the request frame itself coming back (loopback, another tester on a
+            # shared channel) and every other first byte in front of the request's own tail / the genuine reply's tail
+            self.expect("own-request-frame-echoed", {"mismatch"}, q, q, req, form)
+            firsts = range(256) if rng.random() < 0.25 else rng.sample(range(256), 12)
+            for first in firsts:
+                if first in ((sid + 0x40) & 0xFF, 0x7F):
+                    continue
+                cls_ = "request-sid" if first == sid else "bit6-clear" if not first & 0x40 else "other"
+                self.expect(f"foreign-first-byte[{cls_}]", {"mismatch"}, q, bytes([first]) + q[1:], req, form)
+                if gen is not None and first in (sid, sid | 0x80, (sid + 0x40) ^ 0x80):
+                    self.expect(f"foreign-first-byte[{cls_}]+genuine-tail", {"mismatch"}, q, bytes([first]) + gen[1:], req, form)
 
     def nrc_mapping(self) -> None:
         ctx = self.ctx
